@@ -194,6 +194,7 @@ class Ctx(object):
         self.seen = {}        # (o, attr index) -> value the application read from the database and relies on
         self.written = set()  # (o, attr index) assigned by the application in this session
         self.locked = set()   # objects locked with get_for_update in the current transaction
+        self.neg = {}         # (o, attr index) -> values v for which a lookup answered from the cached object said `o.a != v`
     def begin_op(self):
         self.nstmt = 0; self.suppress = False
     # ---- scheduling
@@ -256,6 +257,12 @@ class Ctx(object):
                 env.violations.append({'kind': kind, 'attr_kind': ATTRS[a][1], 'thread': self.tid, 'object': o, 'attr': NAMES[a],
                                        'value_read': v, 'committed_now': None if row is None else row[a],
                                        'update_set': {NAMES[k]: w for k, w in sets.items()}})
+        for (o2, a), vals in sorted(self.neg.items()):
+            if o2 != o or a in EXCLUDED or (o, a) in self.written or row is None: continue
+            if row[a] in vals:
+                env.violations.append({'kind': 'stale-read', 'attr_kind': ATTRS[a][1], 'thread': self.tid, 'object': o, 'attr': NAMES[a],
+                                       'observed': 'a lookup answered from the cached object said %s != %r' % (NAMES[a], row[a]),
+                                       'committed_now': row[a], 'update_set': {NAMES[k]: w for k, w in sets.items()}})
     # ---- the acting session's cache, in the shape the model driver prints
     def snap(self):
         cache = core.local.db2cache.get(self.env.db)
@@ -300,13 +307,21 @@ def do_op(ctx, op):
         # the FIRST value the application got counts (reads must be repeatable); own commits update it (after_commit)
         if (op['o'], op['a']) not in ctx.written: ctx.seen.setdefault((op['o'], op['a']), v)
         return 'ok', v
-    if k == 'find':                     # E.get(id=o, a=v): by the identity map (then `a` is read from the object) or by SQL
-        o = op['o']; name = NAMES[op['a']]
-        obj = E.get(id=o, **{name: dec(KIND[name], op['v'])})
-        if obj is None: return 'ok', 0
-        ctx.objs[o] = obj
-        if (o, op['a']) not in ctx.written: ctx.seen.setdefault((o, op['a']), op['v'])
-        return 'ok', 1
+    if k == 'find':                     # E.get(id=o, a=v) / E.exists(id=o, a=v): by the identity map (then `a` is read from the
+        o = op['o']; name = NAMES[op['a']]   # cached object, whether or not it matches) or by SQL
+        kw = {name: dec(KIND[name], op['v'])}
+        cached = o in ctx.objs              # the application holds the object: the lookup is answered from the identity map
+        if op.get('ex'):
+            found = E.exists(id=o, **kw)
+            if found and o not in ctx.objs: ctx.objs[o] = E.get(id=o)      # identity-map hit: no SQL, nothing marked
+        else:
+            obj = E.get(id=o, **kw)
+            found = obj is not None
+            if found: ctx.objs[o] = obj
+        if (o, op['a']) not in ctx.written:
+            if found: ctx.seen.setdefault((o, op['a']), op['v'])
+            elif cached: ctx.neg.setdefault((o, op['a']), set()).add(op['v'])   # learnt from the cached object: o.a != v
+        return 'ok', 1 if found else 0
     if k == 'select':                   # select(x for x in E if x.a == v)[.for_update()][:]  (may be answered by cache.query_results)
         name = NAMES[op['a']]
         val = dec(KIND[name], op['v'])
@@ -500,7 +515,7 @@ def gen_case(rng, uid):
                         loaded.update(x for x in OBJS if rows[x][a] == rows[o][a])
                     elif rng.random() < 0.15:
                         a = rng.choice(hot)
-                        prog.append({'k': 'find', 'o': o, 'a': a, 'v': rng.choice([rows[o][a], rows[o][a], 0, 1])})
+                        prog.append({'k': 'find', 'o': o, 'a': a, 'v': rng.choice([rows[o][a], rows[o][a], 0, 1]), 'ex': rng.random() < 0.3})
                         if prog[-1]['v'] == rows[o][a]: loaded.add(o)
                     else:
                         prog.append({'k': 'get', 'o': o, 'fu': rng.random() < 0.1}); loaded.add(o)
@@ -516,7 +531,7 @@ def gen_case(rng, uid):
                 elif r < 0.88: prog.append({'k': 'fetch', 'o': o, 'as': sorted(rng.sample(range(len(ATTRS)), rng.choice([1, 2, len(ATTRS)])))})
                 elif r < 0.93: prog.append({'k': 'get', 'o': o, 'fu': rng.random() < 0.5})
                 elif r < 0.95: prog.append({'k': 'rollback'}); loaded = set()
-                elif r < 0.97: prog.append({'k': 'find', 'o': o, 'a': a, 'v': rng.choice([rows[o][a], 0, 1, 2])})
+                elif r < 0.97: prog.append({'k': 'find', 'o': o, 'a': a, 'v': rng.choice([rows[o][a], 0, 1, 2]), 'ex': rng.random() < 0.4})
                 elif r < 0.995:
                     prog.append({'k': 'select', 'a': a, 'v': rng.choice([rows[o][a], rows[o][a], 0, 1]), 'fu': rng.random() < 0.25})
                     loaded.update(x for x in OBJS if rows[x][a] == prog[-1]['v'])
@@ -558,6 +573,12 @@ def template_cases(rng, limit):
         b = (a + 1) % len(ATTRS)
         pairs.append(([G, rd(a), wr(b, 51), C], [G, wr(a, 61), C]))                    # read a, write b  ||  write a
     pairs.append(([G, wr(0, 52), C], [G, wr(0, 62), C]))                               # blind writes
+    for a in (0, 1, 4, 6, 7):                                                          # keyword lookups answered from the cache:
+        w = (a + 1) % len(ATTRS)
+        for ex in (False, True):
+            for v in (5, 1):                                                           # criterion not matching (rows hold 1) / matching
+                L = {'k': 'find', 'o': 1, 'a': a, 'v': v, 'ex': ex}
+                pairs.append(([G, L, wr(w, 76), C], [G, wr(a, 5 if v == 5 else 86), C]))   # the other session sets `a` to the looked-up value
     for a in (0, 1, 6, 7):
         pairs.append(([{'k': 'find', 'o': 1, 'a': a, 'v': 1}, wr((a + 1) % len(ATTRS), 59), C], [G, wr(a, 69), C]))   # attribute read by a search criterion
     for a in (0, 1, 4, 6):
@@ -772,8 +793,11 @@ def run_cases(ctx, env, cases, label, follow=True):
             vkinds = {v['kind'] for v in viol}
             small = shrink(env, case, vkinds)
             env.violations = []
-            trace2, _ = run_real(env, small)
-            viol2 = list(env.violations) + commit_oracle(trace2)
+            try:
+                trace2, _ = run_real(env, small)
+                viol2 = list(env.violations) + commit_oracle(trace2)
+            except Exception:
+                small, viol2 = case, []
             prelude = find_prelude(cases, len(results) - 1, small, vkinds)
             results[-1] = (case, trace, final_rows, viol, small, (viol2 or viol)[0], prelude)
     reqs = [model_request(r[0], [seg['t'] for seg in r[1]]) for r in results]
